@@ -129,7 +129,7 @@ Fixpoint dec_max (l : list dec) (cur : dec) : dec :=
 Definition conv_to_number (v : value) : dec :=
   match v with
   | VNum d => d
-  | VStr s => dec_of_string s
+  | VStr s => num_of_text s
   | VBool b => if b then dec_one else dec_zero
   | _ => if is_null v then dec_zero else NaN
   end.
